@@ -1,2 +1,13 @@
-(* C13 -- placeholder while the proofs are being built *)
-From Verif Require Import Base.GoInt Thrift.Model.
+(* C13 -- thrift bytes follow the binary and compact protocol specifications.
+   [spec_enc] (Thrift/Spec.v) is a transcription of the two specification documents; the package's encoder model
+   equals it modulo three recorded deviations, and differs from it without them. *)
+From Verif Require Import Base.GoInt Thrift.Model Thrift.Spec Thrift.ProofsA.
+
+(* the full statement is false on the faithful model (witnesses: I32 field in the binary protocol, double in the compact one) *)
+Theorem t_conforms_refuted : t_conforms_refuted_statement.
+Proof. exact ProofsA.t_conforms_refuted. Qed.
+
+(* with the recorded deviations (binary type codes, 3-byte binary stop field, big-endian compact doubles) switched on in
+   the transcription, every byte agrees for every supported type and value, both protocols *)
+Theorem t_conforms_partial : t_conforms_partial_statement.
+Proof. exact ProofsA.t_conforms_partial. Qed.
